@@ -143,7 +143,7 @@ Theorem imp_fastq_iter fuel cur (toks : list bytes) t : (length toks + 1 < fuel)
     /\ Forall2 fq_item_ok (decode_toks t toks) out.
 Proof.
   intros Hf. unfold imp_fastqrd_reader_iter. cbv zeta.
-  change (go_while fuel _ _ ([], ?s)) with (go_while fuel (fun _ => Ret true) fqi_body ([], s)).
+  timeout 120 (change (go_while fuel _ _ ([], ?s)) with (go_while fuel (fun _ => Ret true) fqi_body ([], s))).
   destruct (fqi_loop t (length toks) toks cur fuel [] (le_n _) Hf) as (s' & out' & Hl & Hfa).
   rewrite Hl. cbn [after app]. exists s', out'. split; [reflexivity|exact Hfa].
 Qed.
